@@ -89,8 +89,8 @@ theorem C06_counts_exact (kind : Kind) (as : List Act) (h k : Nat) :
       have := hi.live x hd e1
       intro e; rw [e2] at this; simp [e] at this
 
-/-- a dropped stream = cancel of each of its unresolved items, in any order: all of the above per item,
-and afterwards none of them is left -/
+/-- a dropped stream = cancel of each of its unresolved items, in any order: the invariant holds afterwards and no value
+changed (for any list of handles; that the items themselves are gone is `C06_stream_drop_gone`) -/
 theorem C06_stream_drop (items : List Nat) : ∀ (s : State), Inv s →
     Inv (run s (items.map Act.cancel)) ∧ ∀ k, absVal (run s (items.map Act.cancel)) k = absVal s k := by
   induction items with
@@ -100,6 +100,47 @@ theorem C06_stream_drop (items : List Nat) : ∀ (s : State), Inv s →
     have := ih (cancel s a).1 (inv_cancel s a hi)
     simp only [List.map_cons, run, List.foldl, step] at this ⊢
     exact ⟨this.1, fun k => by rw [this.2 k]; exact absVal_cancel s a k⟩
+
+theorem cancel_gone (s : State) (hi : Inv s) (h : Nat) (hc : Cancellable s h) : (cancel s h).1.hs h = none := by
+  obtain ⟨hd, hh, hst⟩ := hc
+  obtain ⟨m, hm, he⟩ := eeid_inv (hi.live h hd hh)
+  have heo : s.entryOf hd = some m := by simp [State.entryOf, hm, he]
+  exact (cancel_ent_k' s hi h hd m hh hst hm heo).2.1
+
+/-- … and afterwards none of the items is left: if the unresolved items of the stream are pending acquisitions (never polled,
+queued, or handed the lock) — which is what a stream holds — every one of them is gone after the drop, in whatever order they
+are released, also when the release of one hands the lock to the next. -/
+theorem C06_stream_drop_gone (items : List Nat) : ∀ (s : State), Inv s → (∀ h ∈ items, Cancellable s h) → items.Nodup →
+    ∀ h ∈ items, (run s (items.map Act.cancel)).hs h = none := by
+  induction items with
+  | nil => intro s _ _ _ h hh; cases hh
+  | cons a t ih =>
+    intro s hi hall hnd h hh
+    have ⟨hn1, hn2⟩ := List.nodup_cons.1 hnd
+    have hi1 := inv_cancel s a hi
+    have hall1 : ∀ x ∈ t, Cancellable (cancel s a).1 x := by
+      intro x hx
+      obtain ⟨hd, e1, e2⟩ := hall x (List.mem_cons_of_mem _ hx)
+      exact ⟨hd, by rw [cancel_hs_other s a x (fun e => hn1 (e ▸ hx))]; exact e1, e2⟩
+    have hrun : run s ((a :: t).map Act.cancel) = run (cancel s a).1 (t.map Act.cancel) := by
+      simp [run, List.foldl, step]
+    rw [hrun]
+    rcases List.mem_cons.1 hh with e | hh
+    · subst e
+      -- the later cancels do not touch this handle
+      have : ∀ (l : List Nat) (s' : State), h ∉ l → (run s' (l.map Act.cancel)).hs h = s'.hs h := by
+        intro l
+        induction l with
+        | nil => intro s' _; rfl
+        | cons b l ih2 =>
+          intro s' hb
+          have hb1 : h ≠ b := fun e => hb (by rw [e]; simp)
+          have hb2 : h ∉ l := fun e => hb (List.mem_cons_of_mem _ e)
+          have : run s' ((b :: l).map Act.cancel) = run (cancel s' b).1 (l.map Act.cancel) := by simp [run, List.foldl, step]
+          rw [this, ih2 _ hb2, cancel_hs_other s' b h hb1]
+      rw [this t _ hn1]
+      exact cancel_gone s hi h (hall h (by simp))
+    · exact ih (cancel s a).1 hi1 hall1 hn2 h hh
 
 /-- non-vacuity, the defect D1 scenario: a waiter that was handed the lock on a valueless key is dropped
 without being polled again: nothing remains -/
